@@ -120,7 +120,9 @@ def main(tier, seed):
                                             (silent_cases, res3, f3, 'silent')):
         bad = set(failing['spec']) | (set(failing[oracle]) if oracle else set())
         for i in sorted(bad):
-            dec.report(rec(cases[i], results[i], 'not-terminated-or-not-released'))
+            chk = ('spec', 'c05_spec') if i in set(failing['spec']) else \
+                {'rest': ('rest', 'ends_at_rest'), 'silent': ('silent', 'silence_ok')}[oracle]
+            dec.report(pd.with_minimal('C13', rec(cases[i], results[i], 'not-terminated-or-not-released'), cases[i], chk))
         for i in failing['corr']:
             if i not in bad:
                 dec.report(dict(rec(cases[i], results[i], 'model-differs'), theorem='correspondence prov_corr'),
